@@ -285,6 +285,7 @@ pdgstrf_MemInit(int_t n, int_t annz, superlumt_options_t *superlumt_options,
     register int_t lwork = superlumt_options->lwork;
     void     *work = superlumt_options->work;
     int_t      iword, dword, retries = 0;
+    int_t      retry_top1 = 0, retry_used = 0;
     SCPformat *Lstore;
     NCPformat *Ustore;
     int_t      *xsup, *xsup_end, *supno;
@@ -358,6 +359,10 @@ pdgstrf_MemInit(int_t n, int_t annz, superlumt_options_t *superlumt_options,
 	}
 
 	lusup = (double *) pdgstrf_expand( &nzlumax, LUSUP, 0, 0, Glu );
+	/* [user space] the stack as it is before ucol, lsub and usub are taken:
+	   a retry starts again from here */
+	retry_top1 = stack.top1;
+	retry_used = stack.used;
 	ucol  = (double *) pdgstrf_expand( &nzumax, UCOL, 0, 0, Glu );
 	lsub  = (int_t *)    pdgstrf_expand( &nzlmax, LSUB, 0, 0, Glu );
 	usub  = (int_t *)    pdgstrf_expand( &nzumax, USUB, 0, 1, Glu );
@@ -372,7 +377,13 @@ pdgstrf_MemInit(int_t n, int_t annz, superlumt_options_t *superlumt_options,
 		SUPERLU_FREE(lsub);
 		SUPERLU_FREE(usub);
 	    } else {
-		duser_free(nzumax*dword+(nzlmax+nzumax)*iword, HEAD);
+		/* give back exactly what the last attempt took (some of the
+		   three requests were refused and took nothing; alignment
+		   padding may have been added): the amount used to be computed
+		   as if all three had been granted, which "freed" memory that
+		   was never handed out */
+		stack.top1 = retry_top1;
+		stack.used = retry_used;
 	    }
 	    nzumax /= 2;    /* reduce request */
 	    nzlmax /= 2;
